@@ -30,10 +30,16 @@ structure XYZ where
   inf : Bool
   deriving DecidableEq, Repr, Inhabited
 
-/-- n-fold `x.Sqr(&x)` -/
-def sqrN : Nat → Fe → Fe
+/-- n-fold application (generic, so that its unfolding lemmas are independent of `f`) -/
+def iterN {α : Type} (f : α → α) : Nat → α → α
   | 0, a => a
-  | n+1, a => sqrN n (sqr a)
+  | n+1, a => iterN f n (f a)
+
+theorem iterN_zero {α : Type} (f : α → α) (a : α) : iterN f 0 a = a := rfl
+theorem iterN_succ {α : Type} (f : α → α) (n : Nat) (a : α) : iterN f (n+1) a = iterN f n (f a) := rfl
+
+/-- n-fold `x.Sqr(&x)` -/
+def sqrN (n : Nat) (a : Fe) : Fe := iterN sqr n a
 
 /-- the common prefix of `Field.Inv` and `Field.Sqrt` (field.go): x2, x3, x22, x223 -/
 def chain223 (a : Fe) : Fe × Fe × Fe × Fe :=
@@ -90,24 +96,27 @@ def XY.neg (a : XY) : XY := { a with y := negate (normalize a.y) 1 }
 /-- `XYZ.mul_lambda` -/
 def XYZ.mulLambda (a : XYZ) : XYZ := { a with x := mul a.x feBeta }
 
+/-- the arithmetic of `XYZ.Double` once `t5 = a.Y` normalised is known to be non-zero -/
+def doubleCore (ax t5 az : Fe) : XYZ :=
+  let rz := mulInt (mul t5 az) 2
+  let t1 := mulInt (sqr ax) 3
+  let t2 := sqr t1
+  let t3 := mulInt (sqr t5) 2
+  let t4 := mulInt (sqr t3) 2
+  let t3 := mul ax t3
+  let rx := setAdd (negate (mulInt t3 4) 4) t2
+  let t2 := negate t2 1
+  let t3 := setAdd (mulInt t3 6) t2
+  let ry := mul t1 t3
+  let t2 := negate t4 2
+  let ry := setAdd ry t2
+  { x := rx, y := ry, z := rz, inf := false }
+
 /-- `XYZ.Double` -/
 def XYZ.double (a : XYZ) : XYZ :=
   let t5 := normalize a.y
   if a.inf || isZero t5 then { a with inf := true }
-  else
-    let rz := mulInt (mul t5 a.z) 2
-    let t1 := mulInt (sqr a.x) 3
-    let t2 := sqr t1
-    let t3 := mulInt (sqr t5) 2
-    let t4 := mulInt (sqr t3) 2
-    let t3 := mul a.x t3
-    let rx := setAdd (negate (mulInt t3 4) 4) t2
-    let t2 := negate t2 1
-    let t3 := setAdd (mulInt t3 6) t2
-    let ry := mul t1 t3
-    let t2 := negate t4 2
-    let ry := setAdd ry t2
-    { x := rx, y := ry, z := rz, inf := false }
+  else doubleCore a.x t5 a.z
 
 /-- the common tail of `XYZ.Add` and `XYZ.AddXY` once u1,u2,s1,s2 and the new Z are known -/
 def addTail (u1 u2 s1 s2 : Fe) (zmul : Fe → Fe) : XYZ :=
@@ -181,13 +190,18 @@ def XY.isValid (a : XY) : Bool :=
     let x3 := setAdd x3 (setInt 7)
     equals (normalize y2) (normalize x3)
 
-/-- `XYZ.precomp(w)`: odd multiples a, 3a, 5a, … (2^(w-2) entries) -/
+/-- f p, f (f p), … (n entries; generic, so that its unfolding lemmas are independent of `f`) -/
+def iterList {α : Type} (f : α → α) : Nat → α → List α
+  | 0, _ => []
+  | n+1, p => f p :: iterList f n (f p)
+
+theorem iterList_zero {α : Type} (f : α → α) (p : α) : iterList f 0 p = [] := rfl
+theorem iterList_succ {α : Type} (f : α → α) (n : Nat) (p : α) :
+    iterList f (n+1) p = f p :: iterList f n (f p) := rfl
+
+/-- `XYZ.precomp(w)`: odd multiples a, 3a, 5a, … (2^(w-2) entries): pre[i] = d.Add(pre[i-1]) with d = 2a -/
 def XYZ.precomp (a : XYZ) (w : Nat) : List XYZ :=
-  let d := XYZ.double a
-  let rec go : Nat → XYZ → List XYZ
-    | 0, _ => []
-    | n+1, prev => let nx := XYZ.add d prev; nx :: go n nx
-  a :: go (2 ^ (w - 2) - 1) a
+  a :: iterList (fun prev => XYZ.add (XYZ.double a) prev) (2 ^ (w - 2) - 1) a
 
 /-! ### scalars (`Number` = big.Int = Int) -/
 
@@ -251,6 +265,15 @@ def applyDigitA (r : XYZ) (tab : Nat → XY) (d : Int) : XYZ :=
   else if d ≠ 0 then XYZ.addXY r (XY.neg (tab (((-d).toNat - 1) / 2)))
   else r
 
+/-- one round of the main loop of `XYZ.ECmult` (bit position i): double, then the four digit look-ups -/
+def ecmultStep (pre1 prel : List XYZ) (w1 wl wg1 wg128 : List Int) (r : XYZ) (i : Nat) : XYZ :=
+  let r := XYZ.double r
+  let r := if i < w1.length then applyDigitJ r pre1 (w1.getD i 0) else r
+  let r := if i < wl.length then applyDigitJ r prel (wl.getD i 0) else r
+  let r := if i < wg1.length then applyDigitA r preGXY (wg1.getD i 0) else r
+  let r := if i < wg128.length then applyDigitA r preG128XY (wg128.getD i 0) else r
+  r
+
 /-- `XYZ.ECmult`: r = na·a + ng·G (GLV split of na, 2^128 split of ng, interleaved wNAF).
     `none` = the Go code would panic (wNAF longer than 129). `ng` is non-negative. -/
 def ecmult (a : XYZ) (na : Int) (ng : Nat) : Option XYZ := do
@@ -265,14 +288,7 @@ def ecmult (a : XYZ) (na : Int) (ng : Nat) : Option XYZ := do
   let prel := XYZ.precomp alam CurveConsts.windowa
   let bits := max (max w1.length wl.length) (max wg1.length wg128.length)
   let start : XYZ := { a with inf := true }
-  let step (r : XYZ) (i : Nat) : XYZ :=
-    let r := XYZ.double r
-    let r := if i < w1.length then applyDigitJ r pre1 (w1.getD i 0) else r
-    let r := if i < wl.length then applyDigitJ r prel (wl.getD i 0) else r
-    let r := if i < wg1.length then applyDigitA r preGXY (wg1.getD i 0) else r
-    let r := if i < wg128.length then applyDigitA r preG128XY (wg128.getD i 0) else r
-    r
-  pure ((List.range bits).reverse.foldl step start)
+  pure ((List.range bits).reverse.foldl (ecmultStep pre1 prel w1 wl wg1 wg128) start)
 
 /-- `ECmultGen`: r = a·G with the 64×16 comb table (only the low 256 bits of `a` are used) -/
 def ecmultGen (a : Nat) : XYZ :=
